@@ -125,4 +125,41 @@ CHECKS = {
                      "handleIncomingRequest's check that the contact announced after the handshake equals the authenticated key is not part of this harness",
                      "counted as model_checking: states = attacker knowledge states (harvest combinations), transitions = partial handshakes executed against the real code"],
     ),
+    "C04": dict(
+        harness="root", run="TestVerifC04", level="model_checking",
+        technique="explicit-state exploration of real metadata stores: every operation history up to a depth on a real writer (deduplicated by the resulting log), x every delivery plan of the log to fresh real replicas (every split into batches, several orders per batch, reopen at every position), compared with the writer, with a reference model and after re-indexing",
+        rule="states = distinct logs produced by the real writer; transitions = real store operations (append, batch delivery through the store's replication event path, reopen, reload); every explored trace runs the implementation; classes = (scenario, log length, number of batches, reopen, outcome)",
+        assumptions=["entries reach a replica through the store's own replication-complete path (EventLoadEnd with single-entry logs, as the replicator produces), not through pub-sub/bitswap",
+                     "histories to depth 2-4 over {7 contact operations x contacts X,Y, contact-request switch/seed, group join/leave, credential}; multi-member history of 8 entries by 3 devices; 12 concurrent two-writer scenarios",
+                     "batches are causally closed, as the replicator's are"],
+    ),
+    "C13": dict(
+        harness="root", run="TestVerifC13", level="model_checking",
+        technique="exhaustive enumeration over real stores: logs of 0..6/12 entries x 7 arrival shapes (written locally, replicated in one batch newest/oldest first, entry by entry, mixed, after reopen) x every (since, until, reverse) query including unknown identifiers, against the append-order reference; all 32 parameter combinations of the list RPCs",
+        rule="states = (log size, arrival shape) pairs of real metadata and message stores; transitions = listings executed; every listing runs the real ListEvents; classes = (store, arrival, kind of since, kind of until, reverse, error)",
+        assumptions=["single-writer (causally ordered) logs; the mixed shape has two writers in strict alternation",
+                     "GroupMetadataList / GroupMessageList RPC streaming (until_now) is covered only through checkParametersConsistency and the store listings they call"],
+    ),
+    "C07": dict(
+        harness="root", run="TestVerifC07", level="model_checking",
+        technique="explicit-state BFS over the reference contact lifecycle: in every reached reference state every contact operation (allowed or not, on X, Y and the own key) and a malformed-contact catalogue are applied to a real account-group store replayed to that state; writer, reopened writer and a replica are compared with the table-driven reference",
+        rule="states = distinct reference states (per contact: state, seed, metadata); transitions = real store operations; successors by replaying the history on a fresh real store + one real call; classes = (operation, state it was applied in, allowed, outcome)",
+        assumptions=["reference = DESIGN.md appendix A (transition table + seed/metadata rule)",
+                     "one contact to depth 4/6, two contacts to depth 2/3",
+                     "a nil *ShareableContact at the store API is a caller bug, not a malformed contact: it is exercised at the service boundary by C19"],
+    ),
+    "C03": dict(
+        harness="root", run="TestVerifC03", level="exploration",
+        technique="exhaustive enumeration: every event type of the protocol table x a forgery catalogue, through openGroupEnvelope and through real metadata stores (forged envelopes appended to the log by a member; subscribers and state observed)",
+        rule="event types are read from eventTypesMapper at run time; forgeries: signature by another device / the member key / the group key / the device key where that is not the required signer, signer field substituted after signing, member-signature variants, missing / zero / truncated signature, altered payload, unknown type numbers, wrong group secret, every single-bit flip of the sealed envelope (3 types quick, all thorough), re-labelling as every other type (recorded only); distinct = (group type, forgery kind, outcome)",
+        assumptions=["a re-labelled event (same payload bytes and signature under another type number with the same wire shape) carries a valid signature of the device named inside; the property fixes no outcome for it and it is recorded, not judged",
+                     "store-level part: 5 representative types in quick, all in thorough; emission is observed up to an honest sentinel event processed by the same single consumer"],
+    ),
+    "C12": dict(
+        harness="root", run="TestVerifC12", level="exploration",
+        technique="exhaustive enumeration: every single-bit flip, removal and truncation of the identifier, secret and signature of an invitation, every group-type substitution and foreign secret/signature, through the real account-group store; replication descriptors of all three group types tried against every envelope of a real session",
+        rule="2 invitations x (256+256+512 bit flips + removals/truncations + 6 group-type values + 2 foreign-secret variants); valid join then identity comparison; per group type the descriptor is compared field by field, tried on every metadata and message envelope produced by a real member, and its log addresses compared; distinct = (mutation kind, outcome) classes",
+        assumptions=["a nil group is a malformed request, exercised at the service boundary by C19",
+                     "the link-key fields of an invitation are not part of what the property requires to be authenticated"],
+    ),
 }
